@@ -27,7 +27,7 @@ var (
 	svcAtoms      = []int64{1, 2, 3, 4}
 	ownerAtoms    = []int64{101, 102, 103}
 	consumerAtoms = []int64{111, 112, 113}
-	providerAtoms = []int64{121, 122, 123, 124, 125, 126, 127, 101, 102}
+	providerAtoms = []int64{121, 122, 123, 124, 125, 126, 127, 101, 102, 128}
 	wdAtoms       = []int64{131, 132}
 	strangerAtom  = int64(141)
 )
@@ -62,6 +62,9 @@ func standardAtoms() *Atoms {
 	a.addAddr(125, []byte("tiny!"))
 	a.addAddr(126, pad20("provider-six"))
 	a.addAddr(127, pad20("zz-provider-seven"))
+	zb := pad20("prov-zero-byte")
+	zb[4], zb[9] = 0, 0 // 20 bytes with 0x00 inside: addresses, unlike service names, may contain the key separator
+	a.addAddr(128, zb)
 	a.addAddr(131, pad20("withdraw-one"))
 	a.addAddr(132, pad20("withdraw-two"))
 	a.addAddr(141, pad20("stranger"))
@@ -86,7 +89,7 @@ type Gen struct {
 	exportAt int
 }
 
-var providerAtoms20 = []int64{121, 126, 127, 101}
+var providerAtoms20 = []int64{121, 126, 127, 101, 128}
 
 // planExport decides, from the history's rng, the provider pool and the final export step.
 func (g *Gen) planExport(nops int) {
@@ -272,7 +275,7 @@ func (g *Gen) bindingTarget(want int) (svc, prov, owner int64, ok bool) {
 }
 
 // next produces the next op from the current implementation state.
-func (g *Gen) next() *Op {
+func (g *Gen) next0() *Op {
 	rng := g.rng
 	r := g.r
 	s := r.snap
@@ -292,7 +295,8 @@ func (g *Gen) next() *Op {
 		}
 	}
 	if g.chance(g.tempo) {
-		dts := []int64{0, int64(5 * time.Second), int64(5 * time.Second), int64(r.cfg.Arb + r.cfg.Compl), int64(time.Second)}
+		dts := []int64{0, int64(5 * time.Second), int64(5 * time.Second), int64(r.cfg.Arb + r.cfg.Compl), int64(time.Second),
+			int64(5*time.Second + 300*time.Millisecond), int64(4*time.Second + 700*time.Millisecond), int64(600 * time.Millisecond)}
 		return &Op{Kind: "endblock", Dt: dts[rng.Intn(len(dts))]}
 	}
 	// query steps (C17): ~4 % of the ops overall, more likely while requests are pending
@@ -789,8 +793,10 @@ func (g *Gen) ctxOp(forceModule bool) *Op {
 			w = [4]int{3, 1, 3, 4} // batch in flight: kill / pause race with its answers and its expiry
 		case rc.Repeated:
 			w = [4]int{3, 1, 1, 4}
+		case !rc.Repeated && rc.RepeatedTotal != 0:
+			w = [4]int{5, 1, 5, 1} // a one-shot context that was given a total by an update is still one-shot
 		default:
-			w = [4]int{1, 1, 1, 3} // one-shot: pause / kill are refused
+			w = [4]int{1, 1, 1, 5} // one-shot: pause / kill are refused; updates may give it a frequency and a total
 		}
 	}
 	x := rng.Intn(w[0] + w[1] + w[2] + w[3])
@@ -889,4 +895,29 @@ func (g *Gen) funding() [][2]int64 {
 		f = append(f, [2]int64{c, wealth[g.rng.Intn(len(wealth))]})
 	}
 	return f
+}
+
+
+// next draws the next op and, now and then, lets a party that has NO authority sign it although it is
+// closely related to the rightful one: the binding's provider instead of its owner, the owner's
+// withdrawal address instead of the owner.
+func (g *Gen) next() *Op {
+	o := g.next0()
+	s := g.r.snap
+	a := g.r.a
+	switch o.Kind {
+	case "update", "disable", "enable", "refunddep":
+		if o.Prov != o.Owner && g.chance(0.06) {
+			o.Owner = o.Prov
+		}
+	case "withdraw":
+		if o.Prov != 0 && g.chance(0.1) {
+			if ow, ok := s.Owners[string(a.addr(o.Prov))]; ok {
+				if w, ok := s.Wd[ow]; ok && w != ow {
+					o.Owner = a.atomOfAddr([]byte(w))
+				}
+			}
+		}
+	}
+	return o
 }
